@@ -19,6 +19,12 @@ mod c17;
 mod c19;
 mod c05;
 mod c18;
+#[cfg(have_router_hooks)]
+mod c11;
+#[cfg(have_router_hooks)]
+mod c12;
+#[cfg(have_router_hooks)]
+mod router_drv;
 mod dump;
 mod gal;
 mod gen;
@@ -55,6 +61,15 @@ fn module(prop: &str) -> PropModule {
         "C18" => c18::module(),
         "C09" => c09::module(),
         "C10" => c10::module(),
+        #[cfg(have_router_hooks)]
+        "C11" => c11::module(),
+        #[cfg(have_router_hooks)]
+        "C12" => c12::module(),
+        #[cfg(not(have_router_hooks))]
+        "C11" | "C12" => {
+            eprintln!("{}: the router scheduling hooks (patches/hook-router.patch) are not in the iwes tree", prop);
+            std::process::exit(3);
+        }
         "C01" => PropModule { coq_module: "Check_Norm", runner: "Check_Norm.run_C01", generate: |r, t| libgen::generate_mixed(r, t, 320), execute: lib_stage::execute, label: libgen::label },
         "C02" => PropModule { coq_module: "Check_Norm", runner: "Check_Norm.run_C02", generate: |r, t| libgen::generate_mixed(r, t, 320), execute: lib_stage::execute, label: libgen::label },
         "C06" => PropModule { coq_module: "Check_Norm", runner: "Check_Norm.run_C06", generate: |r, t| libgen::generate_mixed(r, t, 320), execute: lib_stage::execute, label: libgen::label },
